@@ -79,7 +79,7 @@ Section Conf.
     a0 <- strdup value ;;
     a1 <- to_upper_inplace a0 ;;
     s <- cstr a1 0 ;;
-    s' <- strip_prefix (s_cfg_guarded c) (s_cfg_prefix c) (s_cfg_cmp_n c) (s_cfg_skip c) s ;;
+    s' <- (if s_cfg_strips c then strip_prefix (s_cfg_guarded c) (s_cfg_prefix c) (s_cfg_cmp_n c) (s_cfg_skip c) s else Ok s) ;;
     if level then level_name s' else facility_name s'.
 
   (** parseValue_output: (name, arg, arg found?) *)
